@@ -17,6 +17,34 @@ inductive Seg where
   | time (t : Int)
   deriving Repr, DecidableEq
 
+/-! Byte-level encoding of the signed message: `ret.WriteString` / `ret.Write` into one buffer, no field carries its length.
+Strings are taken as 7-bit text; integers are the 4 little-endian bytes of `binary.LittleEndian.AppendUint32`; a time is the
+15 bytes of Go's `time.Time.MarshalBinary` for a whole-second UTC time (version 1, seconds since year 1 big-endian,
+nanoseconds, zone offset -1). -/
+
+def le32 (n : Nat) : Bytes :=
+  [UInt8.ofNat (n % 256), UInt8.ofNat (n / 256 % 256), UInt8.ofNat (n / 65536 % 256), UInt8.ofNat (n / 16777216 % 256)]
+
+def be64 (n : Nat) : Bytes :=
+  [UInt8.ofNat (n / 72057594037927936 % 256), UInt8.ofNat (n / 281474976710656 % 256), UInt8.ofNat (n / 1099511627776 % 256),
+   UInt8.ofNat (n / 4294967296 % 256), UInt8.ofNat (n / 16777216 % 256), UInt8.ofNat (n / 65536 % 256),
+   UInt8.ofNat (n / 256 % 256), UInt8.ofNat (n % 256)]
+
+/-- seconds between year 1 and 1970 (Go's `unixToInternal`) -/
+def unixToInternal : Int := 62135596800
+
+def timeBytes (t : Int) : Bytes := [1] ++ be64 (t + unixToInternal).toNat ++ [0, 0, 0, 0, 255, 255]
+
+def strBytes (s : String) : Bytes := s.toList.map fun c => UInt8.ofNat c.toNat
+
+def Seg.encode : Seg → Bytes
+  | .str s => strBytes s
+  | .bytes b => b
+  | .u32 n => le32 n
+  | .time t => timeBytes t
+
+def encodeSegs (l : List Seg) : Bytes := l.flatMap Seg.encode
+
 inductive Packet where
   | proposal (t : Terms)
   | accept (acceptor : Participant)
@@ -56,7 +84,7 @@ structure Proc where
   me : Participant
   current : Option DBState := none
   finished : Option DBState := none
-  seen : List (Bytes × List Seg) := []   -- `SeenPackets`: signatures are deterministic and unique, so a signature is identified by (key, message)
+  seen : List (Bytes × Bytes) := []   -- `SeenPackets`: signatures are deterministic and unique, so a signature is identified by (key, message bytes)
   executing : Bool := false     -- an entry in `Executions`
   deriving Repr
 
@@ -72,7 +100,9 @@ def verifyMessage (m : Meta) (pk : Packet) (t : Terms) : Except Err Unit :=
   match (t.remaining ++ t.joining).find? (fun p => p.addr == m.addr) with
   | none => .error .noSuchParticipant
   | some p =>
-    if m.sigKey == p.key && decide (m.sigMsg = messageForSigning m.beaconID pk t) then .ok () else .error .badSignature
+    -- a signature verifies iff it was made, with that key, on the same BYTES
+    if m.sigKey == p.key && encodeSegs m.sigMsg == encodeSegs (messageForSigning m.beaconID pk t) then .ok ()
+    else .error .badSignature
 
 /-- `DBState.Apply` -/
 def applyPacket (d : DBState) (me : Participant) (pk : Packet) (sender : String) (now : Int) : R :=
@@ -102,7 +132,7 @@ def setupOK (next : DBState) : Bool :=
 /-- `Process.Packet` for the five control packets -/
 def Proc.packet (p : Proc) (m : Meta) (pk : Packet) (now : Int) : Proc × Out :=
   if m.sigId.length < 8 then (p, .err (.other "sig-too-short"))
-  else if p.seen.contains (m.sigKey, m.sigMsg) then (p, .dup)
+  else if p.seen.contains (m.sigKey, encodeSegs m.sigMsg) then (p, .dup)
   else
     match applyPacket p.base p.me pk m.addr now with
     | .error e => (p, .err e)
@@ -111,7 +141,7 @@ def Proc.packet (p : Proc) (m : Meta) (pk : Packet) (now : Int) : Proc × Out :=
       | .error e => (p, .err e)
       | .ok () =>
         let rec' := gossipRecipients p.me (next.joining ++ next.remaining ++ next.leaving)
-        let p' := { p with current := some next, seen := if rec'.isEmpty then p.seen else (m.sigKey, m.sigMsg) :: p.seen }
+        let p' := { p with current := some next, seen := if rec'.isEmpty then p.seen else (m.sigKey, encodeSegs m.sigMsg) :: p.seen }
         match pk with
         | .execute _ => if setupOK next then ({ p' with executing := true }, .ok) else (p', .savedThenErr "setup")
         | _ => (p', .ok)
@@ -167,7 +197,7 @@ def Proc.command (p : Proc) (c : Cmd) (now : Int) : Proc × Out :=
     let lv := gossipRecipients me next.leaving
     let seen' := match pk with
       | some pk => if main.isEmpty && lv.isEmpty then p.seen
-                   else (me.key, messageForSigning p.beaconID pk (termsFromState next)) :: p.seen
+                   else (me.key, encodeSegs (messageForSigning p.beaconID pk (termsFromState next))) :: p.seen
       | none => p.seen
     let p' := { p with current := some next, seen := seen' }
     if blocking && main.isEmpty then (p', .savedThenErr "gossip-empty") else (p', .ok)
